@@ -256,9 +256,25 @@ func (se *SpecEnv) binary(e *SBinary) SVal {
 		return SVal{T: app(SInt, "div", x, y)}
 	case "%":
 		return SVal{T: app(SInt, "mod", x, y)}
-	case "&":
-		return SVal{T: app(SInt, "bitand", x, y)}
-	case "|":
+	case "&", "|":
+		// exact when one operand is a non-negative literal
+		var cst *big.Int
+		other := x
+		if c, ok := new(big.Int).SetString(y.S, 10); ok && c.Sign() >= 0 {
+			cst = c
+		} else if c, ok := new(big.Int).SetString(x.S, 10); ok && c.Sign() >= 0 {
+			cst, other = c, y
+		}
+		if cst != nil {
+			bits := bitsOf(other, cst)
+			if e.Op == "&" {
+				return SVal{T: bits}
+			}
+			return SVal{T: app(SInt, "-", app(SInt, "+", other, bigLit(cst)), bits)}
+		}
+		if e.Op == "&" {
+			return SVal{T: app(SInt, "bitand", x, y)}
+		}
 		return SVal{T: app(SInt, "bitor", x, y)}
 	case "^":
 		return SVal{T: app(SInt, "bitxor", x, y)}
